@@ -32,7 +32,7 @@ func sdStages(props string, quickChildren, quickCases, thChildren, thCases int) 
 			// final quiescent point: every read path agrees on the last write, recorded times follow commit order;
 			// for C06 also: as-of lookups reproduce reads that overlapped no write critical section;
 			// for C02: token-following readers polling the feeds while the writers commit read exactly the feed
-			n, c := 4, 3
+			n, c := 6, 3
 			if tier == "thorough" {
 				n, c = 8, 10
 			}
